@@ -227,11 +227,13 @@ def second_column(rng, kind, n):
 def big_points(rng, p, nrows, flavour):
     """(xy array of nrows points drawn from a small set of distinct near-tie points, which holds
     the four extreme values)"""
-    side = min(1 << p, 32)
+    side = min(1 << p, 24)
     lox, hix, xs = axis_values(rng, flavour, p, side)
     loy, hiy, ys = axis_values(rng, flavour, p, side)
-    xs = np.array([lox, hix] + xs)
-    ys = np.array([loy, hiy] + ys)
+    # whatever the flavour: centres on / next to the cell edges of this frame's grid, computed in
+    # floating point in five ways (near-ties of the discretisation for any extent)
+    xs = np.array([lox, hix] + xs + edge_values(rng, lox, hix, p, 40))
+    ys = np.array([loy, hiy] + ys + edge_values(rng, loy, hiy, p, 40))
     npr = np.random.RandomState(rng.getrandbits(32))
     ix = npr.randint(0, len(xs), nrows)
     iy = npr.randint(0, len(ys), nrows)
@@ -446,16 +448,25 @@ def gen_float_specs(rep, tier):
     #     taken from the dataset's metadata), persist, repartition, an earlier packing written to
     #     parquet, a warm spatial index followed by a row filter; each is also compared with the
     #     same rows packed from a fresh one-partition frame
-    for ki, kind in enumerate(G.KINDS):
-        provs = ['to_parquet'] + [PROVENANCES[1 + (ki + rep.seed + j) % 4] for j in range(1 if quick else 4)]
-        for j, prov in enumerate(provs * scale):
-            flavour = FLAVOURS[(ki + j + rep.seed) % len(FLAVOURS)] if j else \
-                ['window', 'edge', 'grid'][(ki + rep.seed) % 3]
-            p = big_p(rng)
+    #     Every provenance is run on an 'edge' frame (all interior rows are near-ties of the frame's own
+    #     grid and the extremes are random doubles: a perturbation of the cached bounds in the 10th
+    #     decimal, a float32 round trip, a stale bound moves some row to a neighbouring cell) and on a
+    #     frame of another flavour; the kinds rotate with the seed
+    plan = []
+    for i, prov in enumerate(PROVENANCES):
+        plan.append((prov, 'edge'))
+        plan.append((prov, ['grid', 'window', 'tiny', 'zero-cross', 'small'][(i + rep.seed) % 5]))
+    plan += [('to_parquet', 'edge'), ('to_parquet', 'window')]
+    if not quick:
+        plan = plan * 4
+    for j, (prov, flavour) in enumerate(plan * scale):
+        kind = G.KINDS[(j + rep.seed) % len(G.KINDS)]
+        for _ in range(1):
+            p = rng.choice([20, 20, 19, 16, 15])
             sp = float_frame_spec(rng, kind, flavour, p)
             n = len(sp['els_g'])
             ops = [['provenance', prov]]
-            if rng.random() < 0.4:
+            if flavour != 'edge' and rng.random() < 0.5:
                 keep = sorted(rng.sample(range(n), rng.randint(max(2, n // 2), n - 1)))
                 ops.append(['filter_isin', keep])
             ops.append(['pack', rng.randint(1, 4), p])
